@@ -7,6 +7,7 @@ import (
 	"encoding/hex"
 	"fmt"
 	"os"
+	"path"
 	"path/filepath"
 	"sort"
 	"strings"
@@ -190,7 +191,11 @@ func fsExec(w *Wasi, op []any) []any {
 	case "rename":
 		p, l := w.putPath(aPath, s(1))
 		p2, l2 := w.putPath(aPath2, s(2))
-		e, t := w.call("path_rename", dirfd(), p, l, dirfd(), p2, l2)
+		d1, d2 := dirfd(), dirfd() // ["rename", from, to, dirfd] or ["rename", from, to, dirfd, dirfd2]
+		if len(op) > 4 {
+			d1 = uint64(uint32(n(3)))
+		}
+		e, t := w.call("path_rename", d1, p, l, d2, p2, l2)
 		return res(e, t)
 	case "stat":
 		p, l := w.putPath(aPath, s(1))
@@ -235,8 +240,31 @@ func genFs(ctx context.Context, rng *c.Rng, out *c.Out, root string, n int, comp
 		if compiler {
 			cs.Engine = "compiler"
 		}
-		var fds []int64 // descriptors believed open (aims the generator only)
-		var known []string // paths created so far
+		var fds []int64    // descriptors believed open (aims the generator only)
+		var known []string // clean paths (relative to the mount) created so far; entries go stale on purpose
+		// names: for every descriptor opened by path_open and still open, the string wazero keeps as
+		// FileEntry.Name (the path it was opened with, prefixed by the name of the directory descriptor
+		// it was opened through; a trailing slash is kept). Exact, because exec() follows every result.
+		names := map[int64]string{}
+		isDir := map[int64]bool{}  // descriptors believed to be directories (aim only)
+		kind := map[string]byte{}  // clean path -> 'd' | 'f' as last seen (aim only)
+		hasSlash := func(p string) bool { return strings.HasSuffix(p, "/") }
+		// route: what atPath puts in front of a path given through dirfd; ok=false: not an open path_open descriptor
+		route := func(dirfd int64) (string, bool) {
+			if dirfd == 3 {
+				return "", true
+			}
+			if nm, ok := names[dirfd]; ok {
+				return nm + "/", true
+			}
+			return "", false
+		}
+		slash := func(p string) string { // about 1 path argument in 6 ends in '/'
+			if rng.Intn(6) == 0 {
+				return p + "/"
+			}
+			return p
+		}
 		// descriptors for content operations: never the stdio streams, which the model leaves out
 		pickFd := func() int64 {
 			switch r := rng.Intn(16); {
@@ -257,7 +285,7 @@ func genFs(ctx context.Context, rng *c.Rng, out *c.Out, root string, n int, comp
 			}
 			return pickFd()
 		}
-		pickPath := func() string {
+		pickRootPath := func() string {
 			if len(known) > 0 && rng.Intn(5) < 3 {
 				p := known[rng.Intn(len(known))]
 				if rng.Intn(5) == 0 {
@@ -267,11 +295,106 @@ func genFs(ctx context.Context, rng *c.Rng, out *c.Out, root string, n int, comp
 			}
 			return fsPath(rng)
 		}
+		// known paths strictly below the directory dirfd was opened as, made relative to it (wantDir: directories only)
+		below := func(dirfd int64, wantDir bool) []string {
+			var out []string
+			pre := ""
+			if dirfd != 3 {
+				nm, ok := names[dirfd]
+				if !ok {
+					return nil
+				}
+				if pre = strings.TrimPrefix(path.Clean("/"+nm), "/"); pre != "" {
+					pre += "/"
+				}
+			}
+			seen := map[string]bool{}
+			for _, k := range known {
+				if strings.HasPrefix(k, pre) && len(k) > len(pre) && !seen[k] && (!wantDir || kind[k] == 'd') {
+					seen[k] = true
+					out = append(out, k[len(pre):])
+				}
+			}
+			return out
+		}
+		// a path argument for dirfd, without the trailing-slash decision: through a directory descriptor other
+		// than the pre-open mostly a path RELATIVE to that directory which names something known
+		pickRel := func(dirfd int64) string {
+			if _, ok := names[dirfd]; !ok || dirfd == 3 {
+				return pickRootPath()
+			}
+			cands := below(dirfd, false)
+			switch r := rng.Intn(10); {
+			case r < 7 && len(cands) > 0:
+				p := cands[rng.Intn(len(cands))]
+				if rng.Intn(6) == 0 {
+					p = p + "/" + fsNames[rng.Intn(6)]
+				}
+				return p
+			case r < 9:
+				p := fsNames[rng.Intn(6)]
+				if rng.Intn(4) == 0 {
+					p = fsNames[3+rng.Intn(3)] + "/" + p
+				}
+				return p
+			default:
+				return pickRootPath()
+			}
+		}
+		// decor: about 1 path argument in 8 is not clean — ".", "..", empty components, now and then a path that
+		// leaves the directory or is rooted (EPERM). atPath normalises lexically, so "x/../a" is "a" whether or not x
+		// exists. A path that normalises to the directory itself is only produced where the caller allows it.
+		decor := func(p string, allowEmpty bool) string {
+			if rng.Intn(8) != 0 {
+				return p
+			}
+			comps := strings.Split(p, "/")
+			join := func(c []string) string { return strings.Join(c, "/") }
+			q := p
+			switch rng.Intn(10) {
+			case 0:
+				q = "./" + p
+			case 1:
+				q = p + "/."
+			case 2, 3:
+				i := 1 + rng.Intn(len(comps))
+				mid := []string{"//", "/./", "/.//"}[rng.Intn(3)]
+				q = join(comps[:i]) + mid + join(comps[i:])
+			case 4, 5:
+				i := rng.Intn(len(comps))
+				c := append(append(append([]string{}, comps[:i]...), fsNames[rng.Intn(6)], ".."), comps[i:]...)
+				q = join(c)
+			case 6:
+				q = p + "/../" + comps[len(comps)-1]
+			case 7:
+				q = p + "/.."
+			case 8:
+				q = []string{"../" + p, p + strings.Repeat("/..", len(comps)+1), "..", p + "/../../" + comps[0]}[rng.Intn(4)]
+			default:
+				q = "/" + p
+			}
+			if !allowEmpty && !strings.HasPrefix(q, "/") && path.Clean(q) == "." {
+				return p
+			}
+			return q
+		}
+		pickPath := func(dirfd int64, allowEmpty bool) string { return slash(decor(pickRel(dirfd), allowEmpty)) }
+		// an open directory descriptor other than the pre-open half of the time (if there is one), now and then anything, else the pre-open
 		pickDirfd := func() int64 {
-			if rng.Intn(7) == 0 {
+			var dirs []int64
+			for _, fd := range fds {
+				if isDir[fd] {
+					dirs = append(dirs, fd)
+				}
+			}
+			switch r := rng.Intn(20); {
+			case r < 10 && len(dirs) > 0:
+				return dirs[rng.Intn(len(dirs))]
+			case r < 18:
+				return 3
+			default:
 				return pickFd()
 			}
-			return 3
 		}
 		data := func() string {
 			l := rng.Intn(9)
@@ -286,10 +409,13 @@ func genFs(ctx context.Context, rng *c.Rng, out *c.Out, root string, n int, comp
 		}
 		nops := 8 + rng.Intn(30)
 		style := rng.Intn(4) // 0: mixed, 1: content-heavy on few files, 2: directory-heavy, 3: descriptor-heavy
-		// a little initial structure
-		pre := [][]any{{"mkdir", "d"}, {"open", "a", int64(1), int64(0), int64(66)}}
+		// a little initial structure; two times out of three a directory descriptor other than the pre-open from the start
+		pre := [][]any{{"mkdir", "d", int64(3)}, {"open", "a", int64(1), int64(0), int64(66), int64(3)}}
 		if rng.Bool() {
-			pre = append(pre, []any{"mkdir", "e"}, []any{"open", "d/a", int64(1), int64(0), int64(66)})
+			pre = append(pre, []any{"mkdir", "e", int64(3)}, []any{"open", "d/a", int64(1), int64(0), int64(66), int64(3)})
+		}
+		if rng.Intn(3) != 0 {
+			pre = append(pre, []any{"open", slash("d"), int64(2), int64(0), int64(2), int64(3)})
 		}
 		drop := func(fd int64) {
 			for i := 0; i < len(fds); i++ {
@@ -298,7 +424,20 @@ func genFs(ctx context.Context, rng *c.Rng, out *c.Out, root string, n int, comp
 					i--
 				}
 			}
+			delete(names, fd)
+			delete(isDir, fd)
 		}
+		// full: the string atPath produces for (dirfd, p), when dirfd is the pre-open or a tracked descriptor
+		full := func(dirfd int64, p string) (string, bool) {
+			r, ok := route(dirfd)
+			c := path.Clean(p) // atPath: path.Clean, then the trailing slash is put back
+			if hasSlash(p) {
+				c += "/"
+			}
+			return r + c, ok
+		}
+		// cl: the mount-relative clean path a full string stands for ("" = the mount point)
+		cl := func(fp string) string { return strings.TrimPrefix(path.Clean("/"+fp), "/") }
 		exec := func(op []any) {
 			ob := fsExec(w, op)
 			cs.Ops = append(cs.Ops, op)
@@ -308,22 +447,53 @@ func genFs(ctx context.Context, rng *c.Rng, out *c.Out, root string, n int, comp
 			}
 			switch op[0] {
 			case "open":
-				drop(ob[1].(int64))
-				fds = append(fds, ob[1].(int64))
-				if op[2].(int64)&1 != 0 {
-					known = append(known, op[1].(string))
+				fd := ob[1].(int64)
+				fp, _ := full(op[5].(int64), op[1].(string))
+				cp := cl(fp)
+				drop(fd)
+				fds = append(fds, fd)
+				names[fd] = fp
+				if fp == "." || fp == "/" { // FSContext.OpenFile
+					names[fd] = ""
 				}
+				if op[2].(int64)&1 != 0 {
+					known = append(known, cp)
+					if kind[cp] == 0 {
+						kind[cp] = 'f'
+					}
+				}
+				isDir[fd] = op[2].(int64)&2 != 0 || hasSlash(fp) || kind[cp] == 'd' || cp == ""
 			case "mkdir":
-				known = append(known, op[1].(string))
+				fp, _ := full(op[2].(int64), op[1].(string))
+				known = append(known, cl(fp))
+				kind[cl(fp)] = 'd'
+			case "rmdir", "unlink":
+				fp, _ := full(op[2].(int64), op[1].(string))
+				delete(kind, cl(fp))
 			case "rename":
-				known = append(known, op[2].(string))
+				fa, _ := full(op[3].(int64), op[1].(string))
+				fb, _ := full(op[4].(int64), op[2].(string))
+				ca, cb := cl(fa), cl(fb)
+				if ca != cb {
+					known = append(known, cb)
+					if k, ok := kind[ca]; ok {
+						kind[cb] = k
+						delete(kind, ca)
+					}
+				}
 			case "close":
 				drop(op[1].(int64))
 			case "renumber":
-				if op[1].(int64) != op[2].(int64) {
-					drop(op[1].(int64))
-					drop(op[2].(int64))
-					fds = append(fds, op[2].(int64))
+				if from, to := op[1].(int64), op[2].(int64); from != to {
+					nm, isn := names[from]
+					dr := isDir[from]
+					drop(from)
+					drop(to)
+					fds = append(fds, to)
+					if isn {
+						names[to] = nm
+						isDir[to] = dr
+					}
 				}
 			}
 		}
@@ -358,7 +528,16 @@ func genFs(ctx context.Context, rng *c.Rng, out *c.Out, root string, n int, comp
 				if oflags&2 != 0 && rng.Intn(4) != 0 {
 					rights = 2
 				}
-				op = []any{"open", pickPath(), oflags, fdflags, rights, pickDirfd()}
+				dfd := pickDirfd()
+				p := pickPath(dfd, oflags == 0 || oflags == 2)
+				if rng.Intn(4) == 0 { // open a known directory, so that later calls can go through it
+					if ds := below(dfd, true); len(ds) > 0 {
+						oflags = int64([]int{2, 2, 2, 0}[rng.Intn(4)])
+						p = slash(decor(ds[rng.Intn(len(ds))], true))
+						rights = 2
+					}
+				}
+				op = []any{"open", p, oflags, fdflags, rights, dfd}
 			case k < 22:
 				op = []any{"close", pickAnyFd()}
 			case k < 30:
@@ -427,22 +606,45 @@ func genFs(ctx context.Context, rng *c.Rng, out *c.Out, root string, n int, comp
 			case k < 79:
 				op = []any{"fstat", pickFd()}
 			case k < 83:
-				op = []any{"mkdir", fsPath(rng), pickDirfd()}
+				dfd := pickDirfd()
+				p := fsPath(rng)
+				if _, ok := names[dfd]; ok && dfd != 3 && rng.Intn(4) != 0 {
+					p = pickRel(dfd)
+				}
+				op = []any{"mkdir", slash(decor(p, false)), dfd}
 			case k < 86:
-				op = []any{"rmdir", pickPath(), pickDirfd()}
+				dfd := pickDirfd()
+				op = []any{"rmdir", pickPath(dfd, false), dfd}
 			case k < 90:
-				op = []any{"unlink", pickPath(), pickDirfd()}
+				dfd := pickDirfd()
+				op = []any{"unlink", pickPath(dfd, false), dfd}
 			case k < 95:
-				a, b := pickPath(), pickPath()
+				d1 := pickDirfd()
+				d2 := d1
+				if rng.Intn(10) < 3 {
+					d2 = pickDirfd()
+				}
+				a, b := pickRel(d1), pickRel(d2)
 				if rng.Intn(10) == 0 {
-					b = a
+					b, d2 = a, d1
 				}
 				if rng.Intn(10) == 0 {
-					b = a + "/" + fsNames[rng.Intn(6)]
+					b, d2 = a+"/"+fsNames[rng.Intn(6)], d1
 				}
-				op = []any{"rename", a, b, pickDirfd()}
+				a, b = slash(decor(a, false)), slash(decor(b, false))
+				// Not generated: the same path spelled in two textually different ways with equal trailing-slash
+				// flags (possible only through a directory descriptor opened as "dir/": "dir//x" vs "dir/x").
+				// sysfs.rename short-cuts textually identical names only; the model identifies a name with its
+				// component list and cannot tell the two spellings apart.
+				fa, oka := full(d1, a)
+				fb, okb := full(d2, b)
+				if oka && okb && fa != fb && cl(fa) == cl(fb) && hasSlash(a) == hasSlash(b) {
+					b, d2 = a, d1
+				}
+				op = []any{"rename", a, b, d1, d2}
 			default:
-				op = []any{"stat", pickPath(), pickDirfd()}
+				dfd := pickDirfd()
+				op = []any{"stat", pickPath(dfd, true), dfd}
 			}
 			exec(op)
 		}
